@@ -111,6 +111,19 @@ theorem trace_prefix_full (total : Nat) (evs : List ChainEv) :
   rw [trace_eq_range]
   exact range_prefix_range (n_le_total' total evs)
 
+/-- **The trace only grows** — whatever was recorded (and hence could be inspected or flushed) after
+    `evs` is still there, unchanged and at the same positions, after ANY continuation `more` of the
+    schedule (further draws, pause/resume, abort, finalisation): an inspected prefix is never
+    retracted or rewritten. -/
+theorem trace_grows (total : Nat) (evs more : List ChainEv) :
+    (tRun (tinit total) evs).trace <+: (tRun (tinit total) (evs ++ more)).trace := by
+  rw [trace_eq_range, trace_eq_range, runEvs_append]
+  exact range_prefix_range (n_mono_run _ more)
+
+/-- nothing is recorded twice: the recorded stream positions are pairwise distinct -/
+theorem trace_nodup (total : Nat) (evs : List ChainEv) : (tRun (tinit total) evs).trace.Nodup := by
+  rw [trace_eq_range]; exact List.nodup_range
+
 /-- streams: chain `i` uses stream `i + 1`, the controller stream 0 — all distinct -/
 theorem streams_distinct (i j : Nat) : (i + 1 = j + 1 ↔ i = j) ∧ i + 1 ≠ 0 := by omega
 
